@@ -56,8 +56,9 @@ Failed(r) == r = RErr \/ r = ROut
 \* over all commands in every state): a failing command changes nothing, and a command
 \* changes only the records of its own type under the keys it names
 ErrorChangesNothing(d0, c, d) == Failed(d.r) => d.db = d0
+\* (SETBIT may adopt the legacy string under the same key: it also touches the string record)
 KeysIndependent(d0, c, d) == \A ty \in TyLetters, k \in Keys :
-                                (ty # TyOf(c) \/ k \notin KeysOf(c)) => RecOf(d.db, ty, k) = RecOf(d0, ty, k)
+                                ((ty # TyOf(c) /\ ~(c.c = "setbit" /\ ty = "k")) \/ k \notin KeysOf(c)) => RecOf(d.db, ty, k) = RecOf(d0, ty, k)
 StepOK(c, t) == LET d == Do(db, c, t, RNow)
                 IN /\ d.r # ROut /\ Small(d.db)
                    /\ Assert(ErrorChangesNothing(db, c, d), <<"ErrorChangesNothing", c, t>>)
@@ -190,7 +191,7 @@ ZClear(k, t)        == Ok("zclear", k, <<>>, t) /\ db' = Nx("zclear", k, <<>>, t
 ZExpire(k, d, t)    == Ok("zexpire", k, <<d>>, t) /\ db' = Nx("zexpire", k, <<d>>, t).db
 ZPersist(k, t)      == Ok("zpersist", k, <<>>, t) /\ db' = Nx("zpersist", k, <<>>, t).db
 
-ZScores == {2, 3}                 \* 1 and 1.5
+ZScores == {2, 3, -1000004}       \* 1, 1.5 and the extreme class -1e19 (below int64)
 ZIdx == {-3, -1, 0, 1}
 \* score / lex intervals <<lo, lokind, hi, hikind>> (kinds: 0 inclusive, 1 exclusive, 2 infinite)
 ZIv == {<<0, 2, 0, 2>>, <<2, 0, 3, 0>>, <<2, 1, 3, 0>>, <<2, 0, 3, 1>>, <<3, 0, 2, 0>>, <<2, 1, 0, 2>>}
@@ -210,6 +211,25 @@ NextZ ==
        \/ \E iv \in LexIv : ZRemRangeByLex(k, iv[1], iv[2], iv[3], iv[4], t)
        \/ \E d \in Durs : ZExpire(k, d, t)
 SpecZ == Init /\ [][NextZ]_vars
+
+-----------------------------------------------------------------------------
+\* bitmaps (with the legacy string layout: Set / Del of the string under the same key are in the instance)
+SetBit(k, o, v, t)  == Ok("setbit", k, <<o, v>>, t) /\ db' = Nx("setbit", k, <<o, v>>, t).db
+BitClear(k, t)      == Ok("bitclear", k, <<>>, t) /\ db' = Nx("bitclear", k, <<>>, t).db
+BExpire(k, d, t)    == Ok("bexpire", k, <<d>>, t) /\ db' = Nx("bexpire", k, <<d>>, t).db
+BPersist(k, t)      == Ok("bpersist", k, <<>>, t) /\ db' = Nx("bpersist", k, <<>>, t).db
+BOffs == {0, 7, 8192}
+NextB ==
+  \/ \E k \in Keys \ FullKeys, t \in Times :
+       \/ SetBit(k, 0, 1, t) \/ BitClear(k, t)
+       \/ \E d \in Durs : BExpire(k, d, t)
+  \/ \E k \in FullKeys, t \in Times :
+       \* (no string commands under the bitmap's key: the legacy conversion is a recorded finding,
+       \* kv-bitmap-legacy-conversion, and stays out of the graph; the model and its theorems cover it)
+       \/ BitClear(k, t) \/ BPersist(k, t)
+       \/ \E o \in BOffs, v \in {0, 1} : SetBit(k, o, v, t)
+       \/ \E d \in Durs : BExpire(k, d, t)
+SpecB == Init /\ [][NextB]_vars
 
 -----------------------------------------------------------------------------
 \* local deletion: the background scan at the node's clock tick
@@ -268,6 +288,12 @@ CmdsZ ==
   \cup {C("zincrby", k, <<1, m>>) : k \in Keys, m \in Subs}
   \cup {C("zrem2", k, <<m, m2>>) : k \in Keys, m \in Subs, m2 \in Subs}
   \cup {C("zexpire", k, <<d>>) : k \in Keys, d \in Durs}
+CmdsB ==
+  {C(n, k, <<>>) : n \in {"bitcount", "bkeyexist", "bttl", "bitclear", "bpersist"}, k \in Keys}
+  \cup {C("getbit", k, <<o>>) : k \in Keys, o \in BOffs}
+  \cup {C("setbit", k, <<o, v>>) : k \in Keys, o \in BOffs, v \in {0, 1}}
+  \cup {C("bitcount2", k, <<s, e>>) : k \in Keys, s \in {0, 1, 1024}, e \in {-1, 0, 1023, 1024}}
+  \cup {C("bexpire", k, <<d>>) : k \in Keys, d \in Durs}
 AllCmds == CmdsKV \cup CmdsH \cup CmdsL \cup CmdsS \cup CmdsZ
 CmdsLD == CmdsKV \cup CmdsH
 CONSTANT TCmds
@@ -297,6 +323,11 @@ CountsAgree ==
        IN /\ R("lrange", k, <<0, -1>>, now)[2] = n
           /\ R("lkeyexist", k, <<>>, now) = RInt(IF n > 0 THEN 1 ELSE 0)
           /\ \A i \in 0..(MaxLen + 2) : (R("lindex", k, <<i>>, now) # RNil) <=> i < n
+    /\ "b" \in TT =>
+       LET n == R("bitcount", k, <<>>, now)[2]
+       IN /\ R("bitcount2", k, <<0, -1>>, now) = RInt(n)
+          /\ n >= Cardinality({o \in BOffs : R("getbit", k, <<o>>, now) = RInt(1)})
+          /\ (n > 0 => R("bkeyexist", k, <<>>, now) = RInt(1))
     /\ "z" \in TT =>
        LET n == R("zcard", k, <<>>, now)[2]
        IN /\ R("zrange", k, <<0, -1>>, now)[2] = n /\ R("zrevrange", k, <<0, -1>>, now)[2] = n
@@ -331,10 +362,14 @@ ExpiredIsDead == Policy = "wc" =>
     /\ ("s" \in TT /\ Dead(db.st[k], t)) =>
          /\ W("scard", k, <<>>, t).r = RInt(0) /\ W("sadd", k, <<x>>, t).r = RInt(1) /\ W("srem", k, <<x>>, t).r = RInt(0)
          /\ W("spop", k, <<>>, t).r = RNil /\ W("sclear", k, <<>>, t).r = RInt(0)
+    /\ ("b" \in TT /\ Dead(db.bm[k], t) /\ ~KVLive(db.kv[k], t).has) =>
+         /\ W("bitcount", k, <<>>, t).r = RInt(0) /\ W("getbit", k, <<0>>, t).r = RInt(0) /\ W("bkeyexist", k, <<>>, t).r = RInt(0)
+         /\ W("setbit", k, <<7, 1>>, t).r = RInt(0) /\ W("setbit", k, <<7, 1>>, t).db.bm[k].bits = {7}
+         /\ W("bitclear", k, <<>>, t).r = RInt(0) /\ W("bexpire", k, <<1>>, t).r = RInt(0)
     /\ ("z" \in TT /\ Dead(db.zs[k], t)) =>
          /\ W("zcard", k, <<>>, t).r = RInt(0) /\ W("zadd", k, <<2, x>>, t).r = RInt(1) /\ W("zrem", k, <<x>>, t).r = RInt(0)
          /\ W("zincrby", k, <<1, x>>, t).r = RScore(1) /\ W("zclear", k, <<>>, t).r = RInt(0)
-PersistName(ty) == CASE ty = "k" -> "persist" [] ty = "h" -> "hpersist" [] ty = "l" -> "lpersist" [] ty = "s" -> "spersist" [] ty = "z" -> "zpersist"
+PersistName(ty) == CASE ty = "b" -> "bpersist" [] ty = "k" -> "persist" [] ty = "h" -> "hpersist" [] ty = "l" -> "lpersist" [] ty = "s" -> "spersist" [] ty = "z" -> "zpersist"
 OverwriteClearsExpiry ==
   \A k \in Keys, t \in Times : LET v == V1 IN
     /\ "k" \in TT =>
@@ -347,7 +382,8 @@ ModifyCmds(k, v, x) ==
    C("hset", k, <<x, v>>), C("hsetnx", k, <<x, v>>), C("hmset", k, <<x, v, x, v>>), C("hincrby", k, <<x, 1>>), C("hdel", k, <<x>>),
    C("lpush", k, <<v>>), C("rpush", k, <<v>>), C("lset", k, <<0, v>>), C("lpop", k, <<>>), C("rpop", k, <<>>), C("ltrim", k, <<0, 0>>),
    C("sadd", k, <<x>>), C("srem", k, <<x>>), C("spop", k, <<>>),
-   C("zadd", k, <<2, x>>), C("zincrby", k, <<1, x>>), C("zrem", k, <<x>>), C("zremrangebyrank", k, <<0, 0>>)}
+   C("zadd", k, <<2, x>>), C("zincrby", k, <<1, x>>), C("zrem", k, <<x>>), C("zremrangebyrank", k, <<0, 0>>),
+   C("setbit", k, <<8, 1>>), C("setbit", k, <<0, 0>>)}
 Present(d, ty, k) == IF ty = "k" THEN d.kv[k].has ELSE ~CEmpty(ty, Coll(d, ty, k))
 ModifyKeepsExpiry ==
   \A k \in Keys, t \in Times : \A c \in {m \in ModifyCmds(k, V1, X1) : TyOf(m) \in TT} :
@@ -367,7 +403,7 @@ TTLIsRemaining == Policy = "wc" =>
   \A k \in Keys, now \in Nows : \A ty \in TT :
     LET r == RecOf(db, ty, k)
         alive == ~Dead(r, now) /\ Present(db, ty, k)
-        nm == CASE ty = "k" -> "ttl" [] ty = "h" -> "httl" [] ty = "l" -> "lttl" [] ty = "s" -> "sttl" [] ty = "z" -> "zttl"
+        nm == CASE ty = "b" -> "bttl" [] ty = "k" -> "ttl" [] ty = "h" -> "httl" [] ty = "l" -> "lttl" [] ty = "s" -> "sttl" [] ty = "z" -> "zttl"
     IN /\ (alive /\ r.exp # 0) => (R(nm, k, <<>>, now) = RInt(r.exp - now) /\ r.exp - now > 0)
        /\ (~alive \/ r.exp = 0) => R(nm, k, <<>>, now) = RInt(-1)
 \* local deletion: commands never look at expiries, the scan never removes early
